@@ -167,8 +167,16 @@ func genC04(g *Rng, tier string, emit func(Op)) {
 		kp, pk := kc.kp, kc.kp.pk
 		maxbits := 0
 		for k := 1; k <= kc.kmax; k++ {
-			for _, nonrev := range []bool{false, true} {
+			// the revocation attribute (if any) sits last, first or in the middle of the credential
+			for _, revPos := range []int{-1, k, 0, k / 2} {
+				nonrev := revPos >= 0
 				if nonrev && (!pk.RevocationSupported() || k+1 >= len(pk.R)) {
+					continue
+				}
+				if revPos == k/2 && (k/2 == 0 || k/2 == k) {
+					continue
+				}
+				if tier != "thorough" && nonrev && revPos != k && k > 3 {
 					continue
 				}
 				attrs := make([]*big.Int, k)
@@ -178,8 +186,9 @@ func genC04(g *Rng, tier string, emit func(Op)) {
 				var rs *revState
 				if nonrev {
 					rs = revSetup(kp)
-					attrs = append(attrs, rs.witness.E)
+					attrs = append(attrs[:revPos], append([]*big.Int{rs.witness.E}, attrs[revPos:]...)...)
 				}
+				revIndex := revPos + 1 // attribute number of the revocation attribute
 				secret := randSecret(g)
 				cred := issueCred(kp, secret, attrs)
 				if nonrev {
@@ -193,6 +202,14 @@ func genC04(g *Rng, tier string, emit func(Op)) {
 				}
 				for mask := 0; mask < 1<<k; mask++ {
 					disclosed := subsetOf(mask, k)
+					if nonrev {
+						// attribute numbers after the revocation attribute are shifted by one
+						for i, d := range disclosed {
+							if d >= revIndex {
+								disclosed[i] = d + 1
+							}
+						}
+					}
 					// a disclosure *set* may be given in any order (e.g. the order of a verifier's
 					// request) and may repeat an index
 					switch {
@@ -237,7 +254,11 @@ func genC04(g *Rng, tier string, emit func(Op)) {
 						if nonrev && ambiguous(tree) {
 							continue // the known verifier ambiguity of C11 is not this property's concern
 						}
-						op := Op{"op": "memberD", "class": fmt.Sprintf("subset-k%d-nonrev%v%s", k, nonrev, abandoned), "label": "accept", "key": kp.id,
+						where := ""
+						if nonrev && revPos != k {
+							where = fmt.Sprintf("-at%d", revIndex)
+						}
+						op := Op{"op": "memberD", "class": fmt.Sprintf("subset-k%d-nonrev%v%s%s", k, nonrev, where, abandoned), "label": "accept", "key": kp.id,
 							"proof": tree, "context": hx(ctx), "nonce": hx(nonce), "issig": issig,
 							"attrs": hxs(truth), "disclosed": intsAny(disclosed), "ts": hxs(ts)}
 						if nonrev {
@@ -245,7 +266,7 @@ func genC04(g *Rng, tier string, emit func(Op)) {
 						}
 						emit(op)
 						for j, r := range proof.AResponses {
-							if j == 0 || (nonrev && j == len(cred.Attributes)-1) {
+							if j == 0 || (nonrev && j == revIndex) {
 								continue
 							}
 							rnd := new(big.Int).Sub(r, new(big.Int).Mul(proof.C, expOf(pk.Params.Lm, truth[j])))
